@@ -100,13 +100,21 @@ class BlockRowOperator(AbstractBlockOperator):
             op, leaf = op_leaf
             return jax.tree.map(jnp.add, value, op(leaf))
 
-        return jax.tree.reduce(
+        result = jax.tree.reduce(
             func,
             tree,
             is_leaf=lambda op_leaf: isinstance(op_leaf, tuple)
             and len(op_leaf) > 0
             and isinstance(op_leaf[0], AbstractLinearOperator),
         )
+        # with a single block, the reduction never calls func and returns the (op, leaf) pair
+        if (
+            isinstance(result, tuple)
+            and len(result) == 2
+            and isinstance(result[0], AbstractLinearOperator)
+        ):
+            result = result[0](result[1])
+        return result
 
     def transpose(self) -> AbstractLinearOperator:
         return BlockColumnOperator(self._tree_map(lambda op: op.T))
